@@ -35,6 +35,9 @@ each format (`cfgsys.STYLES`: JSON indented with spaces / tabs / not at all, com
 characters escaped or literal, every character escaped, key order, CRLF, padding; YAML block / flow / quoted / canonical / folded /
 commented / with document markers / written as JSON text; TOML tables, dotted keys, inline tables, quoted keys, literal / escaped /
 multi-line strings, comments). The harness itself checks with the format's decoder that each text decodes to exactly the tree.
+A file is bytes: in B, C, G every such text is also written in other *encodings* (`ENCODINGS`: UTF-8 with signature, UTF-16 / UTF-32 little and
+big endian with and without byte order mark, Latin-1); where the format's reference decoder applied to the bytes reads exactly the tree the
+file is one more spelling of the tree (S1), and D holds every (format, encoding) of a valid document with the decoder's verdict as the class.
 
 Observations: how the call ended (exception class), `model_dump()`, `generate.model_fields_set`, and the dict that reached
 validation (recorded by a stand-in around `model_validate`). pydantic's verdict is the `validate` parameter of the model: the
@@ -71,7 +74,7 @@ THEOREMS = [_T + n for n in [
     "explicit_over_env", "env_fills_in",
     "configure_fails_cleanly_partial", "configure_nonStringKey_counterexample", "configure_missing_first", "configure_ok_is_merge",
     "parse_unready_refused", "parse_without_generate_refused", "generate_unready_refused", "generate_unconfigured_refused",
-    "generate_fails_cleanly_partial", "generate_glue_without_cpp_counterexample",
+    "generate_fails_cleanly_partial", "generate_glue_without_cpp_counterexample", "generate_typeless", "generate_typeless_unconfigured_refused",
     "history_free", "runReqs_length", "parse_refusal_names_missing", "parseStep_outcome", "generateStep_spec",
     "encodable_combine", "unencodable_override_stays", "assign_assign", "badKeys_nil_iff",
     "configure_checks_the_merge", "configure_unencodable_options_refused", "overridden_file_text_not_refused",
@@ -299,6 +302,65 @@ def styled_variants(tree: dict, picks) -> list:
     return out
 
 
+# the *encoding* dimension of a configuration file: a file is bytes, and each format defines which encodings its documents may be in
+# (JSON: UTF-8 / UTF-16 / UTF-32, RFC 4627 detection + a UTF-8 signature is tolerated by `json.loads(bytes)`; YAML: UTF-8 / UTF-16 told apart
+# by the byte order mark; TOML: UTF-8 only, no byte order mark). The expectation is never written down here: it is what the format's
+# reference decoder makes of the *bytes* (`classify_file`).
+ENCODINGS = {
+    "utf-8-sig": lambda t: b"\xef\xbb\xbf" + t.encode("utf-8"),
+    "utf-16-le-bom": lambda t: b"\xff\xfe" + t.encode("utf-16-le"),
+    "utf-16-be-bom": lambda t: b"\xfe\xff" + t.encode("utf-16-be"),
+    "utf-16-le": lambda t: t.encode("utf-16-le"),
+    "utf-16-be": lambda t: t.encode("utf-16-be"),
+    "utf-32-le-bom": lambda t: b"\xff\xfe\x00\x00" + t.encode("utf-32-le"),
+    "utf-32-be-bom": lambda t: b"\x00\x00\xfe\xff" + t.encode("utf-32-be"),
+    "utf-32-le": lambda t: t.encode("utf-32-le"),
+    "utf-32-be": lambda t: t.encode("utf-32-be"),
+    "latin-1": lambda t: t.encode("latin-1"),
+}
+ENCODING_PAIRS = [(fmt, enc) for enc in ENCODINGS for fmt in ("json", "yaml", "yml", "toml")]
+
+
+def encoded_file(text: str, fmt: str, enc: str, name="c") -> dict | None:
+    """the text of a configuration file in another encoding, as a file description; None when the encoding cannot express the text"""
+    try:
+        data = ENCODINGS[enc](text)
+    except UnicodeError:
+        return None
+    return {"name": f"{name}.{fmt}", "bytes": data.decode("latin-1")}
+
+
+def decodes_to(spec: dict, tree: dict) -> bool:
+    """does the format's reference decoder, applied to the bytes of the file, give exactly `tree`?"""
+    c = classify_file(spec)
+    return c.get("content") == "mapping" and cfgsys.canon_typed(c["doc"]) == cfgsys.canon_typed(tree)
+
+
+def encoded_variants(tree: dict, pairs, styles=()) -> list:
+    """(variant name `format@encoding[~style]`, case) for (format, encoding) pairs: the same tree in a file that is not plain UTF-8 —
+    only where the format's reference decoder reads exactly the tree from the bytes (then the file is one more spelling of the tree;
+    the others are part of the decision table D)"""
+    out = []
+    style_of = {f: s for f, s in styles}
+    for k, (fmt, enc) in enumerate(pairs):
+        style = style_of.get("yaml" if fmt == "yml" else fmt) if k % 2 else None
+        text = cfgsys.styled(tree, fmt, style) if style else None
+        if text is None:
+            style = None
+            try:
+                text = dict(FORMATS)[fmt](tree)
+            except Exception:  # noqa  (e.g. TOML has no null)
+                continue
+        spec = encoded_file(text, fmt, enc)
+        if spec is not None and decodes_to(spec, tree):
+            out.append((f"{fmt}@{enc}" + (f"~{style}" if style else ""), {"file": spec, "positional_only": True}))
+    return out
+
+
+def rotate_encodings(k: int, n: int) -> list:
+    return [list(ENCODING_PAIRS[(k * n + j) % len(ENCODING_PAIRS)]) for j in range(n)]
+
+
 def pick_styles(r: random.Random, n: int) -> list:
     return [[fmt, st] for fmt in ("yaml", "json", "toml") for st in r.sample(sorted(cfgsys.STYLES[fmt]), min(n, len(cfgsys.STYLES[fmt])))]
 
@@ -417,7 +479,8 @@ def build_plan(ctx) -> Plan:
         plain = i % 4 != 3
         tree = cfgsys.TreeGen(r, p_optional=r.choice([0.15, 0.35, 0.6]), plain=plain, p_edge=0.3).tree()
         add_entry(P, {"part": "B", "tree": tree, "plain": plain, "rseed": f"{seed}/c17/B/{i}/v",
-                      "styles": pick_styles(random.Random(f"{seed}/c17/B/{i}/styles"), ctx.n(2, 5))}, f"B/{i}")
+                      "styles": pick_styles(random.Random(f"{seed}/c17/B/{i}/styles"), ctx.n(2, 5)),
+                      "encodings": rotate_encodings(i + seed, ctx.n(4, 10))}, f"B/{i}")
 
     # ---- C: file + override subsets -------------------------------------------------------------------------
     for i in range(ctx.n(160, 1500)):
@@ -431,7 +494,8 @@ def build_plan(ctx) -> Plan:
         fmt = r.choice(["yaml", "yml", "json", "toml"])
         rs = random.Random(f"{seed}/c17/C/{i}/style")
         add_entry(P, {"part": "C", "base": base, "over": over, "fmt": fmt,
-                      "style": rs.choice(sorted(cfgsys.STYLES[fmt])) if rs.random() < 0.6 else None}, f"C/{i}")
+                      "style": rs.choice(sorted(cfgsys.STYLES[fmt])) if rs.random() < 0.6 else None,
+                      "enc": rs.choice(sorted(ENCODINGS)) if i % 3 == 0 else None}, f"C/{i}")
 
     # ---- D: decision table -----------------------------------------------------------------------------------
     valid = {"generate": {"cpp": {"out": "o"}}}
@@ -446,6 +510,15 @@ def build_plan(ctx) -> Plan:
         "YAML": [("valid", {"text": cfgsys.to_yaml(valid)})],
         "": [("valid", {"text": cfgsys.to_yaml(valid)})],
     }
+    for sfx, to_text in (("yaml", cfgsys.to_yaml), ("json", cfgsys.to_json), ("toml", cfgsys.to_toml)):
+        others = [("nonascii", {"generate": {"cpp": {"out": "o", "namespace": "n"}, "include_dirs": ["d\u00e9/\u00fc"]}}),
+                  ("astral", {"generate": {"cpp": {"out": "o"}, "include_dirs": ["\U0001f4c1/\u20ac"]}})]
+        for enc in ENCODINGS:   # the valid document in every encoding: accepted iff the format's decoder reads it from the bytes
+            for dname, doc in [("valid", valid)] + others:
+                try:
+                    contents[sfx].append((f"{dname}@{enc}", {"bytes": ENCODINGS[enc](to_text(doc)).decode("latin-1")}))
+                except UnicodeError:
+                    pass
     options = [("none", None), ("empty", {}), ("valid", {"generate": {"yaml": {"out": "y"}}}), ("override", {"generate": {"cpp": {"out": "p"}}}),
                ("deeper", {"generate": {"cpp": {"out": {"source": "s", "header": "h"}}}}), ("unknown-top", {"bogus": 1})]
     files = [("absent", None)] + [(f"missing.{s}", {"name": f"nope.{s}", "missing": True}) for s in ("yaml", "json", "toml", "txt")] \
@@ -470,7 +543,8 @@ def build_plan(ctx) -> Plan:
             r = random.Random(f"{seed}/c17/G/{ui}/{t}")
             tree, marked = cfgsys.edge_tree(r, unit, t)
             styles = rotate_styles(t + ui) if ctx.quick else [x for k in range(4) for x in rotate_styles(t + ui + 4 * k + k)]
-            add_entry(P, {"part": "G", "tree": tree, "edge": [list(p) for p in marked], "styles": styles}, f"G/{'.'.join(unit[0])}/{t}")
+            add_entry(P, {"part": "G", "tree": tree, "edge": [list(p) for p in marked], "styles": styles,
+                          "encodings": rotate_encodings(t + ui * K + seed, ctx.n(2, 6))}, f"G/{'.'.join(unit[0])}/{t}")
         if not ctx.quick:   # one edge-valued setting at a time
             n_sites = len(cfgsys.edge_tree(random.Random(0), unit, 0)[1])
             for j in range(n_sites):
@@ -672,6 +746,7 @@ def add_entry(P: Plan, e: dict, label: str):
         for fmt, _ in FORMATS:
             vs.append((fmt, {"file": file_of(tree, fmt), "positional_only": True}))
         vs += styled_variants(tree, e.get("styles") or [])
+        vs += encoded_variants(tree, e.get("encodings") or [], e.get("styles") or [])
         if e["plain"] and not cfgsys.has_empty_dict(tree):
             opts = cfgsys.to_opts(tree)
             if opts is not None:
@@ -716,6 +791,7 @@ def add_entry(P: Plan, e: dict, label: str):
         for fmt, _ in FORMATS:
             vs.append((fmt, {"file": file_of(tree, fmt), "positional_only": True}))
         vs += styled_variants(tree, e.get("styles") or [])
+        vs += encoded_variants(tree, e.get("encodings") or [], e.get("styles") or [])
         a, b = split(lambda l: cfgsys.opt_text(l[1]) is not None)
         if a:
             vs.append(("file+opts", {"file": file_of(b, "json"), "cli_opts": cfgsys.to_opts(a)}))
@@ -735,6 +811,10 @@ def add_entry(P: Plan, e: dict, label: str):
     elif part == "C":
         base, over, fmt = e["base"], e["over"], e["fmt"]
         f = file_of(base, fmt, style=e.get("style"))
+        if e.get("enc"):   # the file in another encoding, where the format's decoder reads the same tree from the bytes
+            fe = encoded_file(f["text"], fmt, e["enc"])
+            if fe is not None and decodes_to(fe, base):
+                f = fe
         vs = [("file+dict", {"file": f, "options": over})]
         oo = cfgsys.to_opts(over)
         if oo is not None and not cfgsys.has_empty_dict(over) and over:
@@ -1070,7 +1150,8 @@ def evaluate(ctx, it, results, answers, orc, targets, breaks, spec):
                 if o["kind"] == "ok":
                     la, lb = dict(cfgsys.leaves(ref["dump"])), dict(cfgsys.leaves(o["dump"]))
                     diff = [(".".join(k), la.get(k), lb.get(k)) for k in sorted(set(la) | set(lb)) if la.get(k) != lb.get(k)][:5]
-                fail(f"sources:{re.sub('[^a-z+]', '', v['name'].split('~')[0].lower())}-differs", f"the spelling '{v['name']}' yields a different effective configuration than the options dict",
+                spelling = v['name'].split('~')[0].lower()
+                fail(f"sources:{re.sub('[^a-z+]', '', spelling.split('@')[0])}{'-encoded' if '@' in spelling else ''}-differs", f"the spelling '{v['name']}' yields a different effective configuration than the options dict",
                      {"variant": v["name"], "case": v["case"], "impl": brief(o), "differences": diff})
     elif part == "C":
         for v, o in zip(it["variants"], obs):
